@@ -339,7 +339,7 @@ impl std::str::FromStr for Relation {
             let mut version_string = String::new();
             while let Some((kind, s)) = tokens.peek() {
                 match kind {
-                    R_PARENS => break,
+                    R_PARENS | WHITESPACE => break,
                     IDENT | COLON => version_string.push_str(s),
                     n => return Err(format!("Unexpected token: {:?}", n)),
                 }
